@@ -239,7 +239,9 @@ class _ManifoldDynamicsService(_DynamicsServiceBase):
                 self.orbit.initial_state,
                 self.period,
                 steps=steps,
-                forward=self.forward,
+                # Floquet directions are those of the (forward) monodromy matrix for both
+                # branches; only the manifold trajectories themselves run backward.
+                forward=1,
             )
         
         return self.get_or_create(cache_key, _factory)
